@@ -89,7 +89,7 @@ class Case final : public sim::CaseBase {
     promise_first = g.Flip();
     split_unique = !promise_first && g.Draw(3) == 2;
     // 1: RunShared(e, f) 2: AsyncSharedContract(e, f(promise)): the executor's job is the producer, the root is a SharedFutureOn
-    run_kind = (!promise_first && !split_unique && g.Draw(3) == 2) ? 1 + static_cast<int>(g.Draw(3)) : 0;
+    run_kind = (!promise_first && !split_unique && g.Draw(3) == 2) ? 1 + static_cast<int>(g.Draw(4)) : 0;
     // the producer, before it fulfils its SharedPromise, connects other promises to it (Connect(primary, subsumed)): their futures
     // must then show the same result. Bits: 1 a unique promise, 2 a shared promise.
     subsumed = (!split_unique && run_kind == 0) ? static_cast<int>(g.Draw(4)) : 0;
@@ -126,7 +126,7 @@ class Case final : public sim::CaseBase {
   }
 
   void Describe(sim::Json& j) const final {
-    j.KV("producer", kProducerNames[producer]).KV("created_by", promise_first ? "MakeSharedPromise + Split(promise)" : (split_unique ? "MakeContract + Split(Future&&)" : (run_kind == 1 ? "RunShared(e, f)" : (run_kind == 2 ? "AsyncSharedContract(e, f)" : (run_kind == 3 ? "coroutine returning SharedFuture (co_return / throw / stopped executor)" : "MakeSharedContract")))));
+    j.KV("producer", kProducerNames[producer]).KV("created_by", promise_first ? "MakeSharedPromise + Split(promise)" : (split_unique ? "MakeContract + Split(Future&&)" : (run_kind == 1 ? "RunShared(e, f)" : (run_kind == 2 ? "AsyncSharedContract(e, f)" : (run_kind == 3 ? "coroutine returning SharedFuture (co_return / throw / stopped executor)" : (run_kind == 4 ? "Split(coroutine returning Future): the shared state is the coroutine's callback, reached through final_suspend" : "MakeSharedContract"))))));
     if (subsumed != 0) {
       j.KV("producer_connects_first", subsumed == 1 ? "a unique promise" : (subsumed == 2 ? "a shared promise" : "a unique and a shared promise"));
     }
@@ -204,6 +204,22 @@ class Case final : public sim::CaseBase {
   }
 
   // the shared state is a coroutine's: it waits for the gate the producer thread opens, then completes through final_suspend
+  static yaclib::Future<T, E> CoUnique(Case* c, yaclib::Future<void, E> gate) {
+    co_await yaclib::Await(gate);
+    sim::RaceWrite(&c->cell, sizeof c->cell);
+    c->cell = c->id;
+    c->set_invoke = sim::Seq();
+    switch (c->producer) {
+      case kSetValue: co_return T{c->id};
+      case kSetError: co_return E{c->id};
+      case kSetException: throw sim::TaggedEx{c->id};
+      default:
+        SIM_FAULT("producer_coroutine_stopped");
+        co_await yaclib::On(yaclib::MakeInline(yaclib::StopTag{}));
+        co_return yaclib::StopTag{};
+    }
+  }
+
   static SF CoShared(Case* c, yaclib::Future<void, E> gate) {
     co_await yaclib::Await(gate);
     sim::RaceWrite(&c->cell, sizeof c->cell);
@@ -487,6 +503,11 @@ class Case final : public sim::CaseBase {
         auto [gf, gp] = yaclib::MakeContract<void, E>();
         gate_promise = std::move(gp);
         root = CoShared(this, std::move(gf));
+      } else if (run_kind == 4) {
+        SIM_PROBE("split_of_a_coroutine_future");
+        auto [gf, gp] = yaclib::MakeContract<void, E>();
+        gate_promise = std::move(gp);
+        root = yaclib::Split(CoUnique(this, std::move(gf)));
       } else if (run_kind != 0) {
         root = yaclib::SharedFutureOn<T, E>{root_on}.On(nullptr);
         on_handle = &root_on;
@@ -556,7 +577,7 @@ class Case final : public sim::CaseBase {
         }
         set_return = sim::Seq();
       };
-      yaclib_std::thread prod = run_kind == 3 ? yaclib_std::thread{[this, gp = std::move(gate_promise)]() mutable {
+      yaclib_std::thread prod = run_kind >= 3 ? yaclib_std::thread{[this, gp = std::move(gate_promise)]() mutable {
         for (std::uint32_t y = 0; y < prod_delay; ++y) {
           sim::Yield();
         }
